@@ -52,7 +52,7 @@ def base_req(rnd, pool):
             "algs": [rnd.choice(["ES256", "ES256", "RS256", "EdDSA", "unknown", "u:RS256"]) for _ in range(rnd.choice([0, 1, 1, 2, 3]))],
             "exclude": ex, "excludeGiven": bool(ex) or rnd.random() < 0.3, "allow": al, "allowGiven": bool(al) or rnd.random() < 0.3,
             "rk": rnd.random() < 0.4, "up": rnd.random() < 0.9, "uv": rnd.random() < 0.5, "pinAuth": rnd.random() < 0.04,
-            "hs": rnd.choice(["absent", "absent", "true", "false"]), "prf": dict(NOPRF), "cdh": "h",
+            "hs": rnd.choice(["absent", "absent", "true", "false"]), "prf": dict(NOPRF), "cdh": rnd.choice(["h1"] * 6 + ["h0", "h3", "h20", "h64"]),
             "unkType": rnd.random() < 0.15}
 
 
@@ -66,6 +66,7 @@ def behaviour(rnd):
            "storeKind": "slot" if slot else ("memory" if memory else "reference"),
            "disc": "forced" if slot or memory else rnd.choice(["full", "full", "nondisc", "forced"]),
            "emptyAsErr": False if slot or memory else rnd.random() < 0.5,
+           "tr": rnd.choice(["default", "default", "empty", "usb"]),
            "wrap": "none" if slot or memory else rnd.choice(["none", "none", "mutex", "rwlock", "arcmutex", "arcrwlock"])}
     store = []
     for cid in ["c1", "c2", "c3"][: (rnd.choice([0, 1]) if slot else rnd.choice([0, 1, 2, 3]))]:
